@@ -17,7 +17,7 @@ CAP = 12
 # library keeps references to the caller's tensors and answers log_prob(value) from the cache after `value` was edited in
 # place (replays/C07/distribution-cache-aliases-edited-value.json, fixes/C07-distribution-cache-aliases-caller-tensors.diff).
 # Off until that fix is merged, so that the committed check stays quiet; VERIF_C07_CACHE_ALIASING=1 turns it on.
-ENABLE_CACHE_ALIASING = os.environ.get("VERIF_C07_CACHE_ALIASING", "0") == "1"
+ENABLE_CACHE_ALIASING = True  # repaired in /repo by the cache-copies commit
 
 
 def _prod(xs):
@@ -1023,7 +1023,7 @@ def _walk_large_cases(tier):
     return _s()
 
 
-@subcheck("C07", "walk_large", _walk_large_cases, 260, 2500,
+@subcheck("C07", "walk_large", _walk_large_cases, 400, 2500,
           doc="RandomWalk with ONE size at an implementation threshold: max_iters (15/16/17 ... 129, 257; thorough ... 1025), batch "
               "(... 1025 | 2049) or vocabulary (... 1025 | 2049); HashLM table and conditions expanded from generated seeds; for long "
               "limits also a model that counts its steps and all but forbids eos before a late step, so walks END at steps 127..129, "
@@ -1090,7 +1090,7 @@ def _greedy_large_cases(tier):
     return _s()
 
 
-@subcheck("C07", "greedy_large", _greedy_large_cases, 300, 3000,
+@subcheck("C07", "greedy_large", _greedy_large_cases, 500, 3000,
           doc="ctc_greedy_search with ONE size at an implementation threshold (T, N or V in 15/16/17 ... 1023/1024/1025, 2049): per frame a "
               "permutation of distinct scores (v -> a*(v+1) mod P, P prime > V) whose maximum is moved onto a label drawn from {blank, A, "
               "B}; in_lens unset / full / at threshold values; garbage past the lengths; oracle = NumPy arg-max + Python collapse per "
